@@ -434,16 +434,26 @@ impl Run<'_> {
                         || (certs.iter().any(|c| matches!(c, Cert::Final(_)) && c.slot() == fin) && certs.iter().any(|c| matches!(c, Cert::Notar(_)) && c.slot() == fin));
                     self.rec.oracle(proves, "bundle-no-final-proof", || format!("recover: bundle does not prove finalized slot {}", fin.inner()));
                 }
-                // replay into a fresh pool: same finalized slot, same ready parents for the next window
-                {
+                // replay into a fresh pool: same finalized slot, same ready parents for the next window.
+                // Two delivery orders (the Lean theorems bundle_replay_finalized / bundle_replay_parents hold for every
+                // order): certificates then votes, and votes then certificates in reverse.  In the second order the
+                // parents oracle is evaluated only when the node's own stake is below the quorum threshold (premise
+                // `hown` of the theorems: otherwise its own votes create certificates at the receiver which, if a
+                // received certificate carries its signature for another block, shadow the bundled ones).
+                let own_below_quorum = 5 * (sim.stakes[sim.own] as u128) < 3 * (sim.total as u128);
+                for order in ["certs-first", "votes-first"] {
                     let (mut p2, mut rx2, mut rr2) = new_pool(&sim.epoch);
-                    for c in certs {
-                        if let Ok(vc) = ValidatedCert::try_new(c.clone(), sim.epoch.epoch_info()) { let _ = catch(|| self.rt.block_on(p2.add_cert(vc))); }
-                        while rx2.try_recv().is_ok() {}
-                        while rr2.try_recv().is_ok() {}
-                    }
-                    for v in votes {
-                        if let Ok(vv) = ValidatedVote::try_new(v.clone(), sim.epoch.epoch_info()) { let _ = catch(|| self.rt.block_on(p2.add_vote(vv))); }
+                    enum Item<'a> { C(&'a Cert), V(&'a Vote) }
+                    let seq: Vec<Item> = if order == "certs-first" {
+                        certs.iter().map(Item::C).chain(votes.iter().map(Item::V)).collect()
+                    } else {
+                        votes.iter().map(Item::V).chain(certs.iter().rev().map(Item::C)).collect()
+                    };
+                    for it in seq {
+                        match it {
+                            Item::C(c) => { if let Ok(vc) = ValidatedCert::try_new(c.clone(), sim.epoch.epoch_info()) { let _ = catch(|| self.rt.block_on(p2.add_cert(vc))); } }
+                            Item::V(v) => { if let Ok(vv) = ValidatedVote::try_new(v.clone(), sim.epoch.epoch_info()) { let _ = catch(|| self.rt.block_on(p2.add_vote(vv))); } }
+                        }
                         while rx2.try_recv().is_ok() {}
                         while rr2.try_recv().is_ok() {}
                     }
@@ -452,7 +462,7 @@ impl Run<'_> {
                     self.rec.oracle(f2 == fin, "bundle-replay-finalized", || if far {
                         format!("recover: finalized slot {} is >= 2*SLOTS_PER_EPOCH past genesis: a fresh pool refuses the bundled certificates as SlotOutOfBounds and stays at finalized slot {}", fin.inner(), f2.inner())
                     } else {
-                        format!("recover: fresh pool fed the bundle reaches finalized slot {} instead of {}", f2.inner(), fin.inner())
+                        format!("recover ({order}): fresh pool fed the bundle reaches finalized slot {} instead of {}", f2.inner(), fin.inner())
                     });
                     let w = fin.next().first_slot_in_window();
                     let w = if w <= fin { Slot::new(w.inner() + 4) } else { w };
@@ -463,7 +473,10 @@ impl Run<'_> {
                     let fin_hash = fin_certs.iter().find(|c| matches!(c, Cert::FastFinal(_) | Cert::Notar(_))).and_then(|c| c.block_hash().cloned());
                     let safe_history = sim.pool.parents_ready(w).iter().all(|(s, h)| *s > fin || (*s == fin && Some(h) == fin_hash.as_ref())) && !sim.pool.has_skip_cert(fin);
                     if !safe_history { self.rec.count("unsafe-history:replay-parents-skipped"); }
-                    self.rec.oracle(!safe_history || r1 == r2, "bundle-replay-parents", || format!("recover: ready parents of window start {} differ: sender {r1:?} receiver {r2:?}", w.inner()));
+                    let judged = safe_history && (order == "certs-first" || own_below_quorum);
+                    if safe_history && !judged { self.rec.count("replay-votes-first:own-at-or-above-quorum-not-judged"); }
+                    if order == "votes-first" && judged { self.rec.count("replay-votes-first:judged"); }
+                    self.rec.oracle(!judged || r1 == r2, "bundle-replay-parents", || format!("recover ({order}): ready parents of window start {} differ: sender {r1:?} receiver {r2:?}", w.inner()));
                 }
             }
         }
